@@ -1,0 +1,24 @@
+//go:build verif
+
+// Package verifhook carries the verification hooks of /verif. With the build tag
+// `verif` off every function here is an empty stub (hook_noverif.go).
+package verifhook
+
+// DurableWriteHook, when set, is called synchronously right after each durable write
+// performed during Commit (ledger version saves, meta DB puts, EVM trie/root records).
+var DurableWriteHook func(name string)
+
+// TraceHook, when set, receives the state-db wrapper's sync events.
+var TraceHook func(event string, addr []byte, n int)
+
+func DurableWritten(name string) {
+	if DurableWriteHook != nil {
+		DurableWriteHook(name)
+	}
+}
+
+func Trace(event string, addr []byte, n int) {
+	if TraceHook != nil {
+		TraceHook(event, addr, n)
+	}
+}
